@@ -15,7 +15,7 @@
       - the random placeholders: they never reach the output (C13). *)
 From Coq Require Import List NArith Bool String Permutation Sorted.
 From RG Require Import Base.Str Base.Dec Model.Url Model.Href Model.Fs Model.Site Spec.SiteSpec
-  Proofs.SiteCache Proofs.SiteSort Proofs.SiteBuild Proofs.SiteOrder.
+  Proofs.SiteCache Proofs.SiteSort Proofs.SiteBuild Proofs.SiteOrder Proofs.FsOrder.
 Import ListNotations.
 Open Scope string_scope.
 Open Scope list_scope.
@@ -88,22 +88,56 @@ Proof.
 Qed.
 Print Assumptions C17_sorted_equal_keys_refuted.
 
-(** [stree_perm t t'] (Proofs/SiteOrder.v): [t'] is [t] with the entries of every directory
-    listed in another order.  For a tree with unique names per directory, construction under
-    the two orders returns the SAME page hierarchy (home page, category trees with their sorted
-    sub-category and recipe lists, every title and address) and leaves the same pages in
-    [recipe_pages] for every recipe source - or raises in both (possibly a different error
-    class: with several defects in one tree the first one met depends on the order).
+Ltac nperm_solve :=
+  repeat first
+    [ apply Permutation_refl
+    | match goal with
+      | |- Permutation (?a :: ?l) ?t =>
+          let rec go pre t0 :=
+            lazymatch t0 with
+            | a :: ?r => apply (Permutation_cons_app pre r a)
+            | ?b :: ?r => go (pre ++ [b]) r
+            end in
+          go (@nil (str * node)) t; cbn [app]
+      end ].
 
-    Full statement wanted: [generate_static_site E fs' input M] = [generate_static_site E fs input
-    M] up to the error class, for file systems that differ in the order of directory entries
-    ([node_perm], Spec/SiteSpec.v).  Proved here: the construction of the hierarchy (everything
-    the listing order can influence: [iterdir] is only used by [enumerate_recipe_directory]).
-    NOT proved (hence [_partial]): that [Path.resolve] / [view] of the abstract file system
-    ignore the order of [NDir] entries, and that rendering reads [recipe_pages] only at recipe
-    sources; both are exercised by the correspondence suite `site-order` (every tree under
-    three listing orders, model and implementation compared on each, output hashes equal). *)
-Theorem C17_order_invariant_partial : forall E t t' root M, stree_perm t t' -> uniq_names t ->
+Ltac same_entries :=
+  repeat (first [apply Forall2_nil | apply Forall2_cons; [split; [reflexivity | first [apply NP_file | apply NP_link | idtac]] |]]).
+
+(** [node_perm fs fs'] (Spec/SiteSpec.v): [fs'] is [fs] with the entries of every directory
+    listed in another order; [fs_uniq fs]: names are unique within every directory.  The
+    generator returns the same files for both - same paths, same structured pages, same copied
+    bytes, in the same writing order - or raises in both.  (With several defects in one tree
+    the error CLASS may differ: the first defect met depends on the order; hence [out_equiv]
+    and not plain equality.)  Everything the listing order can influence is covered:
+    [Path.resolve], [is_file], [open] on the abstract file system, the tree walk, the shared
+    [recipe_pages] map, the two sorts. *)
+Theorem C17_order_invariant : forall E fs fs' input M, node_perm fs fs' -> fs_uniq fs ->
+  out_equiv (generate_static_site E fs input M) (generate_static_site E fs' input M).
+Proof. exact generate_static_site_nperm. Qed.
+Print Assumptions C17_order_invariant.
+
+(** the hypotheses hold of the two listings of the demonstration file system *)
+Example C17_order_invariant_fs_ex : node_perm demo_fs demo_fs' /\ fs_uniq demo_fs.
+Proof.
+  split.
+  - unfold demo_fs, demo_fs'.
+    eapply NP_dir; [|apply Permutation_refl]. apply Forall2_cons; [split; [reflexivity|] | apply Forall2_nil]. cbn [snd].
+    match goal with |- node_perm (NDir [(?ks, NDir ?src); ?o]) (NDir [_; (_, ?src')]) =>
+      apply (NP_dir _ [(ks, src'); o]) end; [|nperm_solve].
+    apply Forall2_cons; [split; [reflexivity|] | same_entries]. cbn [snd].
+    2:{ eapply NP_dir; [same_entries | apply Permutation_refl]. }
+    match goal with |- node_perm (NDir [?r; ?a; ?p; (?ksub, NDir [?b; ?i; ?e]); ?l1; ?l2]) _ =>
+      apply (NP_dir _ [r; a; p; (ksub, NDir [e; b; i]); l1; l2]) end; [|nperm_solve].
+    same_entries. cbn [snd].
+    match goal with |- node_perm (NDir [?b; ?i; ?e]) _ => apply (NP_dir _ [b; i; e]) end; [same_entries | nperm_solve].
+  - cbn [fs_uniq map fst snd]. repeat split; repeat constructor; cbv; intuition discriminate.
+Qed.
+
+(** The same statement for the page hierarchy alone, on the trees the generator sees
+    ([stree_perm t t'] (Proofs/SiteOrder.v): [t'] is [t] with every directory's entries permuted):
+    same home page, same category trees, same content of [recipe_pages] at every recipe source. *)
+Theorem C17_hierarchy_order_invariant : forall E t t' root M, stree_perm t t' -> uniq_names t ->
   match from_root_directory E t root M, from_root_directory E t' root M with
   | Ok (hm, h), Ok (hm', h') =>
       hm = hm' /\
@@ -113,7 +147,7 @@ Theorem C17_order_invariant_partial : forall E t t' root M, stree_perm t t' -> u
   | _, _ => False
   end.
 Proof. exact from_root_directory_perm. Qed.
-Print Assumptions C17_order_invariant_partial.
+Print Assumptions C17_hierarchy_order_invariant.
 
 (** one pass over one directory tree, map-free form: identical results *)
 Theorem C17_pass_order_invariant : forall E t t', stree_perm t t' -> uniq_names t ->
